@@ -1,3 +1,4 @@
+use syn::ext::IdentExt;
 use std::borrow::Cow;
 
 use crate::ast::Fields;
@@ -37,7 +38,7 @@ impl InputVariant {
             name_in_attr: self
                 .attr_name
                 .as_ref()
-                .map_or_else(|| Cow::Owned(self.ident.to_string()), Cow::Borrowed),
+                .map_or_else(|| Cow::Owned(self.ident.unraw().to_string()), Cow::Borrowed),
             data: self.data.as_ref().map(InputField::as_codegen_field),
             skip: self.skip.unwrap_or_default(),
             allow_unknown_fields: self.allow_unknown_fields.unwrap_or_default(),
@@ -90,7 +91,7 @@ impl InputVariant {
 
     fn with_inherited(mut self, parent: &Core) -> Self {
         if self.attr_name.is_none() {
-            self.attr_name = Some(parent.rename_rule.apply_to_variant(self.ident.to_string()));
+            self.attr_name = Some(parent.rename_rule.apply_to_variant(self.ident.unraw().to_string()));
         }
 
         if self.allow_unknown_fields.is_none() {
